@@ -301,7 +301,11 @@ pub fn finish(mut r: Report) -> i32 {
     coverage.insert("discarded".into(), json!(r.discarded));
     coverage.insert("explanation".into(), json!(r.explanation));
     coverage.insert("known_findings_seen".into(), json!(known_seen.iter().map(|(k, v)| json!({"signature": k, "occurrences": v.1})).collect::<Vec<_>>()));
-    coverage.insert("violation_signatures".into(), json!(violation_sigs));
+    // (bounded: a broken tree can produce hundreds of thousands of distinct signatures, and the evidence file must stay small)
+    let n_sigs = violation_sigs.len();
+    let shown: BTreeMap<String, u64> = violation_sigs.iter().take(100).map(|(k, v)| (k.chars().take(300).collect::<String>(), *v)).collect();
+    coverage.insert("violation_signatures".into(), json!(shown));
+    coverage.insert("violation_signatures_total".into(), json!(n_sigs));
     for (k, v) in &r.extra { coverage.insert(k.clone(), v.clone()); }
     let doc = json!({
         "property_id": r.id,
